@@ -28,6 +28,7 @@ type Result struct {
 	Before   map[string]map[string]string // server -> id -> json, before the run
 	After    map[string]map[string]string
 	faultedDeref map[string]bool
+	nestedFailed map[string]bool
 	faultTask    string // when set, only this request's failed Dereferences count for the models
 }
 
@@ -114,6 +115,12 @@ func (s *Sim) installHooks() {
 		}
 		s.yield(Op{Kind: opMutex, Method: "mu.Lock", Mu: m, ID: s.muNames[m]})
 		s.logEv(Event{Kind: "mu.Lock", ID: s.muNames[m], Res: site})
+	}
+	pub.SimBeforeSend = func(site string) {
+		if s.inAbort() || s.curTask() == nil {
+			return
+		}
+		s.yield(Op{Kind: opPause, Method: "chan.send", ID: site})
 	}
 	pub.SimAfterUnlock = func(m *sync.Mutex, site string) {
 		if s.inAbort() {
